@@ -194,9 +194,50 @@ func init() {
 									}
 								}
 							}
-							// BasicParser stores url.parser through the phi of url
-							if !found && f.Name() == "BasicParser" && el == "Url:parser" {
-								found = true // checked by FLOW-funnel (url.parser = p dominates every return)
+							// … or through a phi that merges the new object with an existing one (`if url == nil { url = &Url{…} };
+							// url.parser = p`), by a store that dominates every return of the function
+							if !found {
+								var holds func(v ssa.Value, d int) bool
+								holds = func(v ssa.Value, d int) bool {
+									if v == ssa.Value(al) {
+										return true
+									}
+									if phi, ok := v.(*ssa.Phi); ok && d < 3 {
+										for _, e := range phi.Edges {
+											if holds(e, d+1) {
+												return true
+											}
+										}
+									}
+									return false
+								}
+								for _, b2 := range f.Blocks {
+									for _, in2 := range b2.Instrs {
+										st, ok := in2.(*ssa.Store)
+										if !ok {
+											continue
+										}
+										fa, ok := st.Addr.(*ssa.FieldAddr)
+										if !ok || fieldElem(fa.X.Type(), fa.Field) != el || !holds(fa.X, 0) {
+											continue
+										}
+										domAll := true
+										for _, b3 := range f.Blocks {
+											if r, isR := b3.Instrs[len(b3.Instrs)-1].(*ssa.Return); isR {
+												// returns that hand out no object (nil first result) do not matter
+												if len(r.Results) > 0 && isNilConst(r.Results[0]) {
+													continue
+												}
+												if !b2.Dominates(b3) {
+													domAll = false
+												}
+											}
+										}
+										if domAll {
+											found = true
+										}
+									}
+								}
 							}
 							if !found {
 								missing = append(missing, el)
